@@ -3,6 +3,7 @@ import Driver.Store
 import Driver.UUIDp
 import Driver.Lex
 import Driver.Parse
+import Driver.Query
 
 def main (args : List String) : IO UInt32 := do
   match args with
@@ -11,6 +12,7 @@ def main (args : List String) : IO UInt32 := do
   | ["uuid", mode] => Driver.UUIDp.main mode; return 0
   | ["lex"] => Driver.Lex.main; return 0
   | ["parse"] => Driver.Parse.main; return 0
+  | ["query", mode] => Driver.Query.main mode; return 0
   | _ =>
     IO.eprintln "usage: bwdriver <protocol>"
     return 2
